@@ -422,7 +422,8 @@ func (f *Font) GlyphName(gid glyph.ID) string {
 	case *cff.Outlines:
 		return f.Glyphs[gid].Name
 	case *glyf.Outlines:
-		if f.Names == nil {
+		if int(gid) >= len(f.Names) {
+			// The "post" table may list fewer names than there are glyphs.
 			return ""
 		}
 		return f.Names[gid]
